@@ -4,7 +4,7 @@ from harness.oracles import all as ALL
 
 ID = 'C02'
 UNITS = ['event_metrics', 'transcription_scores', 'melody_metrics', 'seg_cluster_q', 'hier_gauc', 'chord_cmp', 'weighted_accuracy', 'key_score', 'pattern_scores', 'alignment_scores', 'tempo_detection', 'beat_q', 'beat_ig', 'multipitch_metrics', 'match_events', 'melody_resample', 'chord_evaluate', 'chord_segmentation', 'hier_measures', 'note_matching', 'multipitch_resample', 'beat_ig_num']
-TRANSLATORS = []
+TRANSLATORS = ['framefuncs']
 NOT_COVERED = 'Partial: AMI of identical annotations is covered by the numeric unit and the oracle only (no theorem).'
 ASSUMPTIONS = ['exact-arithmetic lattices for the correspondence (DESIGN.md section 2.1); NumPy/SciPy primitives as modelled per module']
 
